@@ -49,15 +49,17 @@ pub(crate) fn ver_code(version: &crate::ReadVersion) -> usize {
     }
 }
 
-/// Stable hash of an account's consensus fields (balance, nonce, code hash); `1` for absent.
+/// Stable hash of an account as returned to the EVM: balance, nonce, code hash and whether the
+/// bytecode is attached (which decides if the code location is read next); `1` for absent.
 pub(crate) fn account_hash(info: Option<&revm_state::AccountInfo>) -> usize {
     match info {
         None => 1,
         Some(info) => {
-            let mut bytes = Vec::with_capacity(72);
+            let mut bytes = Vec::with_capacity(73);
             bytes.extend_from_slice(&info.balance.to_be_bytes::<32>());
             bytes.extend_from_slice(&info.nonce.to_be_bytes());
             bytes.extend_from_slice(info.code_hash.as_slice());
+            bytes.push(info.code.is_some() as u8);
             rt::fnv(&bytes)
         }
     }
